@@ -281,6 +281,7 @@ def run_check(prop, tier='quick', seed=0, only=None, nproc=None, verbose=True):
     inconclusive = []
     harness_errors = []
     violations = []
+    non_replays = []
     extra_violations = [0]
     known_hits = {}
     n_replays = 0
@@ -351,8 +352,9 @@ def run_check(prop, tier='quick', seed=0, only=None, nproc=None, verbose=True):
                 o['verdict'] = 'inconclusive'
                 continue
             if not rep.get('reproduced'):
-                harness_errors.append('%s: counterexample did not replay: cex=%r replay=%r' % (key, cex, rep))
-                o['verdict'] = 'harness-error'
+                # decided at the end: a harness error unless another counterexample
+                # of the same obligation does replay (then this one is only a note)
+                non_replays.append((key, 'counterexample did not replay: cex=%r replay=%r' % (cex, rep)))
                 continue
             sig = rep.get('signature', '')
             hit = next((k for k in known if sig and sig.startswith(k['signature'])), None)
@@ -384,6 +386,13 @@ def run_check(prop, tier='quick', seed=0, only=None, nproc=None, verbose=True):
 
     for r in results:
         handle_result(r)
+
+    for key, msg in non_replays:
+        if obl[key]['verdict'] == 'VIOLATED':
+            obl[key].setdefault('notes', []).append(msg[:300])
+        else:
+            harness_errors.append('%s: %s' % (key, msg))
+            obl[key]['verdict'] = 'harness-error'
 
     # vacuity: every declared witness must have been found by some job of the obligation
     for key, o in obl.items():
